@@ -397,8 +397,11 @@ func runScan(p scanPlan, scratch string) (o out) {
 
 // ---------- (b) the TTL handed to the engine ----------
 
-func runTTLChoice(key string, scratch string) (o out) {
+func runTTLChoice(key string, recreate bool, scratch string) (o out) {
 	o.kind = "ttl-choice"
+	if recreate {
+		o.kind = "ttl-choice-over-tombstone"
+	}
 	inner, closer, err := lib.NewEngine(lib.EngMem, scratch)
 	if err != nil {
 		o.fail = err.Error()
@@ -412,6 +415,11 @@ func runTTLChoice(key string, scratch string) (o out) {
 		return
 	}
 	defer be.Retire()
+	if recreate {
+		// the third batch of the creator: the index record is swapped in over a tombstoned index
+		be.Do(lib.CsWrite{Op: "create", Key: []byte(key), Val: []byte("v")})
+		be.Do(lib.CsWrite{Op: "delete", Key: []byte(key)})
+	}
 	rec.Reset()
 	class, _, _ := be.Do(lib.CsWrite{Op: "create", Key: []byte(key), Val: []byte("v")})
 	var ttls []string
@@ -512,8 +520,35 @@ func runEngineTTL(p tplan, scratch string) (o out) {
 	if p.engine == lib.EngBadger {
 		e = "EBadger"
 	}
-	o.coq = lib.App("KEngineTtl", e, lib.Str(prefix), lib.N(uint64(ttlMs)), lib.List(evs))
-	o.json = map[string]interface{}{"engine": p.engine, "ttl_ms": ttlMs, "events": js}
+	// after the last dump, per key of the script: Get(latest), then Create
+	var fin []string
+	var finJ []interface{}
+	seenKey := map[string]bool{}
+	for _, ev := range p.evs {
+		if ev.key == "" || seenKey[ev.key] {
+			continue
+		}
+		seenKey[ev.key] = true
+		kv, ok, isErr := be.Get([]byte(ev.key), 0)
+		if isErr {
+			o.fail = "get failed"
+			return
+		}
+		got := "None"
+		if ok {
+			got = lib.Some(lib.Pair(lib.N(kv.Rev), lib.Bytes(kv.V)))
+		}
+		class, _, synced := be.Do(lib.CsWrite{Op: "create", Key: []byte(ev.key), Val: []byte("x")})
+		if !synced {
+			o.fail = "committed revision stalled"
+			return
+		}
+		fin = append(fin, "("+tab.B([]byte(ev.key))+", "+got+", "+lib.CsWresCoq(class)+")")
+		finJ = append(finJ, map[string]interface{}{"key": ev.key, "present": ok, "create": class})
+		o.outcomes = append(o.outcomes, fmt.Sprintf("final-present-%v-create-%s", ok, class))
+	}
+	o.coq = lib.App("KEngineTtl", e, lib.Str(prefix), lib.N(uint64(ttlMs)), lib.List(evs), lib.List(fin))
+	o.json = map[string]interface{}{"engine": p.engine, "ttl_ms": ttlMs, "events": js, "final": finJ}
 	o.outcomes = []string{"engine-ttl"}
 	return
 }
@@ -524,7 +559,7 @@ func main() {
 	backend.VerifSetIntervals(time.Hour, time.Hour)
 	backend.VerifSetEventsTTL(eventsTTLSeconds)
 	rnd := lib.NewRand(args.Seed)
-	nScan, nEng := 44, 8
+	nScan, nEng := 44, 12
 	switch args.Tier {
 	case "thorough":
 		nScan, nEng = 600, 40
@@ -570,7 +605,8 @@ func main() {
 	}
 	for _, k := range keyPool {
 		k := k
-		jobs = append(jobs, func() out { return runTTLChoice(k, args.Scratch) })
+		jobs = append(jobs, func() out { return runTTLChoice(k, false, args.Scratch) })
+		jobs = append(jobs, func() out { return runTTLChoice(k, true, args.Scratch) })
 	}
 	// engine TTL: create, optional update / delete / re-create before the TTL, dumps well away from the expiry instants
 	e1, pa, p1, ex := "/registry/events/default/e1", "/registry/pods/a", "/registry/pods/events/p1", "/registry/eventsx/a"
@@ -580,12 +616,18 @@ func main() {
 		{{0, "create", e1}, {1000, "update", e1}, {1300, "dump", ""}, {2500, "dump", ""}, {3600, "dump", ""}},
 		{{0, "create", p1}, {0, "create", ex}, {700, "dump", ""}, {2600, "dump", ""}},
 		{{0, "create", e1}, {300, "delete", e1}, {1000, "create", e1}, {1300, "dump", ""}, {2500, "dump", ""}, {3600, "dump", ""}},
+		// re-created over its tombstone (no compaction in between), then left alone past the TTL: index and versions of the
+		// re-creation go together (the tombstone, written without a TTL, stays), the key reads absent and can be created again
+		{{0, "create", e1}, {150, "delete", e1}, {300, "create", e1}, {600, "dump", ""}, {2900, "dump", ""}},
+		{{0, "create", e1}, {120, "update", e1}, {240, "delete", e1}, {360, "create", e1}, {600, "dump", ""}, {2900, "dump", ""}},
 	}
 	badgerScripts := [][]tplanEv{
 		{{0, "create", e1}, {0, "create", pa}, {600, "dump", ""}, {2600, "dump", ""}},
 		{{0, "create", e1}, {600, "dump", ""}, {1000, "update", e1}, {2600, "dump", ""}},
 		{{0, "create", p1}, {0, "create", ex}, {600, "dump", ""}, {2600, "dump", ""}},
 		{{0, "create", e1}, {300, "delete", e1}, {600, "dump", ""}, {2600, "dump", ""}},
+		{{0, "create", e1}, {150, "delete", e1}, {300, "create", e1}, {600, "dump", ""}, {2900, "dump", ""}},
+		{{0, "create", e1}, {120, "update", e1}, {240, "delete", e1}, {360, "create", e1}, {600, "dump", ""}, {2900, "dump", ""}},
 	}
 	for i := 0; i < nEng; i++ {
 		e := []string{lib.EngMem, lib.EngBadger}[i%2]
@@ -625,7 +667,7 @@ func main() {
 	if skipped*3 > len(outs) {
 		w.Fail(lib.ImplFailure{CaseID: -1, What: fmt.Sprintf("generator degenerate: %d of %d cases had indeterminate timing", skipped, len(outs))})
 	}
-	if err := w.Finish("scanner cases (scripted: substring look-alikes; update/delete before expiry with a smaller later compaction revision; a client Update landing between the scan's snapshot and the compare-and-delete of the index; a burst of >= 70 marks inside one TTL window followed by a pause, a new Event, and compactions just after the burst's TTL) and random ones: writes over 9 keys (Event keys, look-alikes such as /registry/pods/events/p1, /registry/eventsx/a, /registry/events, non-event keys, a key outside the prefix), 3-5 scanner.Compact calls with real sleeps chosen so that every (mark, later call) pair is >= 100 ms away from the 300 ms TTL, timestamps recorded around every call, cases with a measured age within 30 ms of the TTL skipped as indeterminate (after 3 tries); TTL-choice cases: one Create per pool key with the engine's ttl arguments recorded; engine-TTL cases: scripted create/update/delete/re-create under a 2 s TTL on memkv and Badger with dumps >= 250 ms away from every expiry instant; distinct = SHA-256 of the Coq case; non-trivial (scanner cases) = a compaction removed at least one record"); err != nil {
+	if err := w.Finish("scanner cases (scripted: substring look-alikes; update/delete before expiry with a smaller later compaction revision; a client Update landing between the scan's snapshot and the compare-and-delete of the index; a burst of >= 70 marks inside one TTL window followed by a pause, a new Event, and compactions just after the burst's TTL) and random ones: writes over 9 keys (Event keys, look-alikes such as /registry/pods/events/p1, /registry/eventsx/a, /registry/events, non-event keys, a key outside the prefix), 3-5 scanner.Compact calls with real sleeps chosen so that every (mark, later call) pair is >= 100 ms away from the 300 ms TTL, timestamps recorded around every call, cases with a measured age within 30 ms of the TTL skipped as indeterminate (after 3 tries); TTL-choice cases: per pool key one Create of a fresh key and one Create over a tombstoned index, with the engine's ttl arguments of every batch operation recorded; engine-TTL cases: scripted create/update/delete/re-create (incl. create, delete, create and create, update, delete, create with no compaction in between, left alone past the TTL) under a 2 s TTL on memkv and Badger, followed by Get + Create on every key of the script, with dumps >= 250 ms away from every expiry instant; distinct = SHA-256 of the Coq case; non-trivial (scanner cases) = a compaction removed at least one record"); err != nil {
 		fmt.Fprintln(os.Stderr, err)
 		os.Exit(2)
 	}
